@@ -83,6 +83,9 @@ def rename_free(t: T, mapping):
 def run(ctx) -> Report:
     rep = Report("C10")
     prog = ctx.prog
+    # the memo-key clause first: it needs no interpretation, and what it finds is reported even if a later clause cannot follow the code
+    from ..memokey import check_memo_keys, memo_rule  # noqa: F401
+    check_memo_keys(ctx, rep, "C10-key", ["ufl.algorithms.remove_component_tensors", "ufl.algorithms.expand_indices", "ufl.algorithms.renumbering"], min_sites=2)
     terms, exprs = corpus.build()
     # compositional family: every composition closer(wrapper^n(base)), n <= 1 (quick) / 2 (thorough)
     _, generated = corpus.generate(2 if ctx.thorough() else 1, terms)
@@ -245,7 +248,6 @@ def run(ctx) -> Report:
             rep.ok("C10-memo", alg, f"{alg.name}: context-sensitive ({sorted(state_reads)}); Variable rule does not use the label-keyed memo")
     from ..memokey import check_memo_keys
 
-    check_memo_keys(ctx, rep, "C10-key", ["ufl.algorithms.remove_component_tensors", "ufl.algorithms.expand_indices", "ufl.algorithms.renumbering"], min_sites=2)
     rep.require_min("C10-remove", 20)
     rep.require_min("C10-relabel", 20)
     rep.require_min("C10-expand", 12)
